@@ -123,6 +123,9 @@ def run(an: Analysis, rep):
     rep.run(c10.format_rules, an, SharedRules(rep, "R06.L", "line-table format constants (shared with C10's R10.*): the lines of the normal form survive to_code / from_code"))
     from . import c05
     rep.run(c05.r053, an, SharedRules(rep, "R06.D", "docstring slot (shared with C05's R05.3): normalize -> to_code -> from_code -> normalize keeps `docstring`"))
+    from . import c04
+    rep.run(c03.r035, an, SharedRules(rep, "R06.W", "operand width thresholds and unit emission (shared with C03's R03.5): the normal form has no recorded widths, so every operand goes through the size function on each to_code"))
+    rep.run(c04.r041, an, SharedRules(rep, "R06.H", "the decoder slices co_varnames into the parameter kinds as the encoder lays them out (shared with C04's R04.1): otherwise the names change place on every to_code / from_code round trip"))
     from . import c12
     rep.run(c12.arg_mutation_rule, an, rep, "R06.M", ["from_json", "to_json", "normalize", "to_code"])
     from . import c07
@@ -133,6 +136,7 @@ def run(an: Analysis, rep):
     rep.run(c07.r071, an, shj, enc, cdec, defs)
     rep.run(c07.r073, an, shj, enc)
     rep.run(c07.r07a, an, shj, enc)
+    rep.run(c07.r07b, an, shj, defs)
     from .common import rebuild_rule
     rep.run(rebuild_rule, an, shj, "R07.8", ["from_json"])
 
